@@ -11,10 +11,13 @@ PROPERTY = "C03"
 LEAN_MODULES = ["AioProps.C03"]
 THEOREMS = [
     "Aio.Http.findCRLF_append_stable",
+    "Aio.Http.findSep_append_stable",
+    "Aio.Http.findCRLF_none_append",
     "Aio.Http.tail_check_sound_strict",
+    "Aio.Http.tail_check_sound_lax",
     "Aio.Http.length_body_compositional",
     "Aio.Http.untilEof_compositional",
-    "Aio.Http.feed_nil",
+    "Aio.Http.feed_failed_latched",
 ]
 RULE = ("streams: grammar-generated request pipelines (1-3 requests; CL and chunked bodies with extensions/trailers; "
         "origin/absolute/asterisk/authority targets) and responses (lax and strict), each also mutated by one of the "
@@ -139,7 +142,7 @@ def check(ctx):
     lines, pending = [], []
     for cfg, data, name in corpus_cases():
         one_stream(ctx, rng, cfg, data, "corpus:" + name, lines, pending)
-    n_streams = 1000 if ctx.quick else 12000
+    n_streams = 600 if ctx.quick else 12000
     for i in range(n_streams):
         mode = rng.random()
         response = mode < 0.35
